@@ -21,7 +21,7 @@ constexpr size_t INF = 99;
 struct Term { int op = 0; int v = 0; };   // 0 any,1 eq,2 ne,3 lt,4 le,5 gt,6 ge
 struct SlotCfg {
   int mock = 0;
-  Term p[2];
+  Term p[3];                               // p[2] (third parameter of h) always accepts
   Term w[3];
   int se[3] = {0, 0, 0};                   // 0 nothing, 1 throw std, 2 throw int, 3 nested call
   int retv = 0;
@@ -36,6 +36,9 @@ struct Mock {
   MAKE_MOCK1(f, int(std::string const&));
   MAKE_CONST_MOCK2(g, int(int, int));
   MAKE_MOCK1(v, void(int));
+  MAKE_MOCK0(z, int());
+  MAKE_MOCK3(h, int(int, int, int));
+  MAKE_MOCK1(q, std::string(int));
 };
 
 struct MockN {            // the default, NON-movable kind of mock object (mock id 3 of the scripts); arity-less macro form
